@@ -319,7 +319,8 @@ theorem binds_not_builtin {reg : Registry} {root : Mod} {scope : List Stmt} {nam
     {sc : List Stmt} (h : Binds reg root scope name m td sc) : builtinNames.contains name = false := by
   cases h <;> assumption
 
-/-- In an unambiguous schema a type statement has at most one derivation chain. -/
+/-- In an unambiguous schema a type statement has at most one derivation chain. (Vacuous as it stands: `Unambiguous` holds of no registry, `Goyang.Props.C09.unambiguous_false`;
+the usable form is `Goyang.Props.C09.spec_exec_chain_unique` over `UnambiguousBelow`.) -/
 theorem derivesFrom_unique {reg : Registry} (hU : Unambiguous reg) {root : Mod} {scope : List Stmt} {t : Stmt}
     {k k' : String} {c c' : List Link} (h : DerivesFrom reg root scope t k c) (h' : DerivesFrom reg root scope t k' c') :
     k = k' ∧ c = c' := by
